@@ -43,6 +43,10 @@ func Shard() int       { n, _ := strconv.Atoi(envOr("VERIF_SHARD", "0")); return
 // shardFile is the unique index used in output file names (a check may consist of several test
 // units, each with its own local shard numbering).
 func shardFile() int {
+	if os.Getenv("VERIF_FUZZ") != "" {
+		// native fuzzing: the coordinator and every worker are separate processes of one campaign
+		return 1_000_000 + os.Getpid()
+	}
 	n, _ := strconv.Atoi(envOr("VERIF_SHARD_FILE", envOr("VERIF_SHARD", "0")))
 	return n
 }
@@ -408,6 +412,40 @@ func one[C any](rt fataler, rec *Rec, c C, run func(*Ctx, C)) {
 		fmt.Printf("VERIF-VIOLATION property=%s replay=%s\n", rec.ID, p)
 		rt.Fatalf("%s: %s", rec.ID, ctx.msg)
 	}
+}
+
+// Fuzz makes Go's coverage-guided fuzzer a second generator for a Drive unit: the input bytes are
+// decoded (data-provider layer) into the unit's case type C and judged by the unit's oracle run.
+// A failing input is saved by the fuzzer under testdata/fuzz and, as the JSON case, as an ordinary
+// replay file of the Drive unit `test` (so `check <id> replay <file>` works on it). decode returns
+// ok=false for inputs that do not map to a case (skipped, not counted). Seeds: f.Add calls made by
+// the caller before Fuzz plus the committed corpus the driver copies to testdata/fuzz/<target>.
+func Fuzz[C any](f *testing.F, id, test string, decode func([]byte) (C, bool), run func(*Ctx, C)) {
+	rec := Get(id)
+	rec.mu.Lock()
+	if rec.test == "" {
+		rec.test = test
+	}
+	rec.mu.Unlock()
+	f.Fuzz(func(t *testing.T, data []byte) {
+		c, ok := decode(data)
+		if !ok {
+			return
+		}
+		enc, err := json.Marshal(c)
+		if err != nil {
+			panic("harness: case not serialisable: " + err.Error())
+		}
+		ctx := runOne(id, c, run, false)
+		rec.record(ctx, enc)
+		if ctx.failed {
+			p := rec.saveViolation(enc, ctx.msg)
+			fmt.Printf("VERIF-VIOLATION property=%s replay=%s\n", id, p)
+			// workers are killed once the coordinator has its crasher: persist what we have now
+			rec.Flush()
+			t.Fatalf("%s: %s", id, ctx.msg)
+		}
+	})
 }
 
 // DriveList runs a finite, enumerated list of cases (an exhaustive grid) through the same
